@@ -1068,10 +1068,15 @@ func (g *Global) targetsLocked(cg *callgraph.Graph, f *ssa.Function, res *writeS
 						continue
 					}
 				}
-				if callee := ci.Common().StaticCallee(); callee != nil && g.unitFor(callee) == nil && !g.isPureLib(callee) {
-					if ts, ok := g.libSiteTargets(callee, ci.Common()); ok {
-						refined[ci] = true
-						out = append(out, ts...)
+				if callee := ci.Common().StaticCallee(); callee != nil && !g.isPureLib(callee) {
+					if u := g.unitFor(callee); u == nil || (u.Trusted && u.ModInferred) {
+						if ts, ok := g.libSiteTargets(callee, ci.Common()); ok {
+							refined[ci] = true
+							out = append(out, ts...)
+							if u != nil && res != nil {
+								g.unitModKeys(u, callee, res)
+							}
+						}
 					}
 				}
 			}
@@ -1728,8 +1733,20 @@ func (g *Global) callWrites(fn *ssa.Function, c *ssa.CallCommon) (map[string]boo
 		all = all || a
 	}
 	if callee := c.StaticCallee(); callee != nil {
-		if g.unitFor(callee) == nil && !g.isPureLib(callee) {
+		if u := g.unitFor(callee); (u == nil || (u.Trusted && u.ModInferred)) && !g.isPureLib(callee) {
 			if ts, ok := g.libSiteTargets(callee, c); ok {
+				if u != nil {
+					// trusted library contract with `modifies inferred, ...`: its listed items plus what this call site
+					// can reach through its arguments
+					ws := &writeSet{keys: map[string]bool{}}
+					g.mu.Lock()
+					g.unitModKeys(u, callee, ws)
+					g.mu.Unlock()
+					for k := range ws.keys {
+						res[k] = true
+					}
+					all = all || ws.all
+				}
 				for _, t := range ts {
 					add(t)
 				}
